@@ -567,4 +567,74 @@ theorem override_order_max_width_first (m : Val) (l1 l2 : List (String × Val)) 
   obtain ⟨c1, c2, h1, h2, he⟩ := override_order_independent_partial l1 l2 hp hnd hmw hv _ hc0
   exact ⟨c1, c2, by simp only [applyInline, h0, h1], by simp only [applyInline, h0, h2], he⟩
 
+/-- Since the repair of F3 (the generated flag `inlineMaxWidthFirst`), the configuration that
+`apply_to` produces does not depend on the iteration order of the `HashMap` of `--config` pairs: for
+every command line `o`, every other order `l2` of its pairs (distinct keys — it is a map —, values
+accepted by `is_valid_key_val`, `max_width` allowed among them) and every starting configuration
+with a valid `use_small_heuristics`, both runs succeed and give the same effective configuration.
+This is the full-strength statement whose pre-repair failure is `override_order_counterexample`. -/
+theorem apply_to_order_independent {α : Type} (o : CliOptions α) (l2 : List (String × Val))
+    (hp : o.inlineConfig.Perm l2) (hnd : (o.inlineConfig.map (·.1)).Nodup)
+    (hv : ∀ kv ∈ o.inlineConfig, checkVal kv.1 kv.2 = true) (c : Config)
+    (hc : (Heuristics.ofVal? (getE c "use_small_heuristics").val).isSome = true) :
+    ∃ c1 c2, applyTo o c = some c1 ∧ applyTo { o with inlineConfig := l2 } c = some c2 ∧
+      Equiv c1 c2 := by
+  obtain ⟨c0, h0⟩ := applyFlagCalls_some (flagCalls o) c (flagCalls_valid o)
+  have hc0 : (Heuristics.ofVal? (getE c0 "use_small_heuristics").val).isSome = true :=
+    heurOK_applyFlagCalls _ c c0 h0 hc
+  have hf : flagCalls ({ o with inlineConfig := l2 } : CliOptions α) = flagCalls o := rfl
+  have hm := filter_max_width_eq o.inlineConfig l2 hp hnd
+  let r1 := o.inlineConfig.filter (fun kv => !(kv.1 == "max_width"))
+  let r2 := l2.filter (fun kv => !(kv.1 == "max_width"))
+  have hpr : r1.Perm r2 := hp.filter _
+  have hndr : (r1.map (·.1)).Nodup := (List.filter_sublist.map _).nodup hnd
+  have hmwr : "max_width" ∉ r1.map (·.1) := by
+    intro hmem
+    obtain ⟨kv, hkv, hk⟩ := List.mem_map.1 hmem
+    have := (List.mem_filter.1 hkv).2
+    simp [hk] at this
+  have hvr : ∀ kv ∈ r1, checkVal kv.1 kv.2 = true :=
+    fun kv hkv => hv kv (List.mem_filter.1 hkv).1
+  have e1 : applyTo o c =
+      applyInline (o.inlineConfig.filter (fun kv => kv.1 == "max_width") ++ r1) c0 := by
+    simp only [applyTo, h0, bindO, orderInline_eq, maxWidthFirst, r1]
+  have e2 : applyTo ({ o with inlineConfig := l2 } : CliOptions α) c =
+      applyInline (o.inlineConfig.filter (fun kv => kv.1 == "max_width") ++ r2) c0 := by
+    simp only [applyTo, hf, h0, bindO, orderInline_eq, maxWidthFirst, r2, hm]
+  rw [e1, e2]
+  have hall : ∀ kv ∈ o.inlineConfig.filter (fun kv => kv.1 == "max_width"), kv.1 = "max_width" := by
+    intro kv hkv
+    have := (List.mem_filter.1 hkv).2
+    simpa using this
+  have hlen : ((o.inlineConfig.filter (fun kv => kv.1 == "max_width")).map (·.1)).Nodup :=
+    (List.filter_sublist.map _).nodup hnd
+  cases hmf : o.inlineConfig.filter (fun kv => kv.1 == "max_width") with
+  | nil =>
+    simp only [List.nil_append]
+    exact override_order_independent_partial r1 r2 hpr hndr hmwr hvr c0 hc0
+  | cons a r =>
+    cases r with
+    | nil =>
+      obtain ⟨ka, m⟩ := a
+      have hka : ka = "max_width" := hall (ka, m) (by rw [hmf]; simp)
+      subst hka
+      have hmv : checkVal "max_width" m = true :=
+        hv ("max_width", m) (List.mem_filter.1 (by rw [hmf]; simp : ("max_width", m) ∈ _)).1
+      simp only [List.cons_append, List.nil_append]
+      exact override_order_max_width_first m r1 r2 hpr hndr hmwr hmv hvr c0 hc0
+    | cons b r' =>
+      exfalso
+      rw [hmf] at hlen hall
+      have ha := hall a (by simp)
+      have hb := hall b (by simp)
+      simp only [List.map_cons, List.nodup_cons, List.mem_cons, not_or] at hlen
+      exact hlen.1.1 (ha.trans hb.symm)
+
+example :
+    let o : CliOptions Nat := { inlineConfig := [("fn_call_width", .nat 110), ("max_width", .nat 120)] }
+    (o.inlineConfig.map (·.1)).Nodup ∧ (∀ kv ∈ o.inlineConfig, checkVal kv.1 kv.2 = true) ∧
+    (applyTo o (defaultWithStyleEdition .e2015)).map (fun c => natOf c "fn_call_width") = some 110 ∧
+    (applyTo { o with inlineConfig := o.inlineConfig.reverse } (defaultWithStyleEdition .e2015)).map
+      (fun c => natOf c "fn_call_width") = some 110 := by decide +kernel
+
 end RF.Props.C14
